@@ -445,6 +445,31 @@ func ruleALBlock(c *Ctx) {
 				if fa, ok := x.Addr.(*ssa.FieldAddr); ok && x.Val == v && typeKey(derefType(fa.X.Type())) == "avro.ReadBuf" && fieldName(fa.X.Type(), fa.Field) == rfAnchors(P).fBuf {
 					continue
 				}
+				// kept in a field of one of the module's own unexported structs (a block reader's state): every load
+				// of that field is held to the same
+				if fa, ok := x.Addr.(*ssa.FieldAddr); ok && x.Val == v && d < 2 && P0isModule(pkgPathOf(derefType(fa.X.Type()))) {
+					fk := typeKey(derefType(fa.X.Type())) + "." + fieldName(fa.X.Type(), fa.Field)
+					why := ""
+					for _, g := range P.ModuleFuncs() {
+						for _, b := range g.Blocks {
+							for _, in := range b.Instrs {
+								fa2, ok := in.(*ssa.FieldAddr)
+								if !ok || typeKey(derefType(fa2.X.Type()))+"."+fieldName(fa2.X.Type(), fa2.Field) != fk {
+									continue
+								}
+								for _, r2 := range referrersOf(fa2) {
+									if ld, isLd := r2.(*ssa.UnOp); isLd && ld.Op == token.MUL && why == "" {
+										why = usesOK(ld, g, d+1)
+									}
+								}
+							}
+						}
+					}
+					if why != "" {
+						return why
+					}
+					continue
+				}
 				return "it is stored by " + x.String()
 			case *ssa.Phi:
 				if why := usesOK(x, fn, d); why != "" {
